@@ -83,6 +83,19 @@ theorem ir_limited_prefix :
     obtain ⟨g, c'', hg, hrun, ht⟩ := this
     exact ⟨g, by omega, by rw [ir_run_eq]; erw [hrun]; exact ht.symm⟩
 
+/-- (b) Literally a prefix: the events of the limited run (whatever its outcome) are an initial part of
+the events of the unlimited run after `g'` steps, for every sufficiently large `g'` (traces are most
+recent first, so "initial part" is `<:+`). -/
+theorem ir_limited_is_prefix :
+    ∀ b f, ∃ g, ∀ g', g ≤ g' →
+      traceOfIr (Ir.run blk true b f env) <:+ traceOfIr (Ir.run (w := w) blk false 0 g' env) := by
+  intro b f
+  obtain ⟨g, _, hg⟩ := ir_limited_prefix blk env b f
+  refine ⟨g, fun g' hg' => ?_⟩
+  obtain ⟨k, rfl⟩ : ∃ k, g' = g + k := ⟨g' - g, by omega⟩
+  rw [hg]
+  exact ir_trace_add false g k _
+
 /-- (c) If the unlimited run runs off the end within `g` steps, every budget `b ≥ g` is enough. -/
 theorem ir_limited_enough :
     ∀ (g : Nat) (c : Ir.Cfg w), Ir.run blk false 0 g env = .done c → ∀ b, g ≤ b →
@@ -238,6 +251,17 @@ theorem bc_limited_prefix :
       rw [hr] at this
       obtain ⟨g, c'', hg, hrun, ht⟩ := this
       exact ⟨g, by omega, by rw [bc_run_unlimited]; erw [hrun]; simp [traceOfBc, ht]⟩
+
+/-- (b) Literally a prefix (see `ir_limited_is_prefix`). -/
+theorem bc_limited_is_prefix :
+    ∀ b f, ∃ g, ∀ g', g ≤ g' →
+      traceOfBc (Bc.run p true b f env) <:+ traceOfBc (Bc.run (w := w) p false 0 g' env) := by
+  intro b f
+  obtain ⟨g, _, hg⟩ := bc_limited_prefix p env b f
+  refine ⟨g, fun g' hg' => ?_⟩
+  obtain ⟨k, rfl⟩ : ∃ k, g' = g + k := ⟨g' - g, by omega⟩
+  rw [hg, bc_run_unlimited, bc_run_unlimited]
+  exact bc_trace_add p false g k _
 
 /-- Outcome of the limited run with fuel `g ≤ b`, given the unlimited outcome with fuel `g`. -/
 theorem bc_enough_aux {g b : Nat} (hg : g ≤ b) :
@@ -451,6 +475,7 @@ end Hpbf
 #print axioms Hpbf.C07.ir_limited_done
 #print axioms Hpbf.C07.ir_limited_stopped
 #print axioms Hpbf.C07.ir_limited_prefix
+#print axioms Hpbf.C07.ir_limited_is_prefix
 #print axioms Hpbf.C07.ir_limited_enough
 #print axioms Hpbf.C07.ir_limited_enough_stopped
 #print axioms Hpbf.C07.ir_limited_terminates
@@ -459,6 +484,7 @@ end Hpbf
 #print axioms Hpbf.C07.bc_limited_stopped
 #print axioms Hpbf.C07.bc_limited_bad
 #print axioms Hpbf.C07.bc_limited_prefix
+#print axioms Hpbf.C07.bc_limited_is_prefix
 #print axioms Hpbf.C07.bc_limited_enough
 #print axioms Hpbf.C07.bc_limited_enough_stopped
 #print axioms Hpbf.C07.bc_limited_enough_bad
